@@ -18,14 +18,25 @@ attribute [secmem] Run.call Run.copyIn Run.clean Run.wipeIf Run.wipe failOut okO
 attribute [secmemchk] anyFailed cleanupFailed releasesClean wipeBeforeRelease Content.isSecret inuseDelta allocDelta
   Page.writable Page.readable
 
-macro "oracle_step" : tactic => `(tactic|
-  (intro fl; rcases fl with _ | ⟨_ | _, fl⟩ <;> (try simp only [secmem, List.headD_cons, List.headD_nil, List.tail_cons,
-      List.tail_nil, Bool.not_true, Bool.not_false, Bool.and_true, Bool.true_and, Bool.and_false, Bool.false_and,
-      if_true, if_false, Bool.false_eq_true, List.nil_append, List.cons_append, List.append_assoc, Prod.fst, Prod.snd]) <;>
-    (try revert fl)))
+/-- the outputs without the unconsumed rest of the oracle (the checkers never look at it; dropping it
+makes a fully evaluated path independent of the oracle, which is how `oracle_step` knows it is done). -/
+def CreateOut.norest (o : CreateOut) : CreateOut := { o with rest := [] }
+def StepOut.norest (o : StepOut) : StepOut := { o with rest := [] }
+def WithOut.norest (o : WithOut) : WithOut := { o with rest := [] }
 
-/-- walk all paths of an operation with at most 14 primitive calls, then evaluate the checkers. -/
-macro "oracle_walk" : tactic => `(tactic| (iterate 14 (all_goals (try oracle_step))) <;> (try simp [secmemchk]))
+attribute [secmem] CreateOut.norest StepOut.norest WithOut.norest
+
+macro "oracle_eval" : tactic => `(tactic| simp [secmem])
+
+/-- consume one oracle answer; a path that no longer depends on the oracle is finished: evaluate the
+checkers on it and stop. -/
+macro "oracle_step" : tactic => `(tactic|
+  first
+  | (intro fl; clear fl; (try simp [secmem, secmemchk]))
+  | (intro fl; rcases fl with _ | ⟨_ | _, fl⟩ <;> (try oracle_eval) <;> (try revert fl)))
+
+/-- walk all paths of an operation with at most 14 primitive calls. -/
+macro "oracle_walk" : tactic => `(tactic| (iterate 14 (all_goals (try oracle_step))) <;> (try simp [secmem, secmemchk]))
 
 /-! ### the resting state of a live secret -/
 
@@ -78,10 +89,132 @@ def pmChk (wiped : Bool) (o : CreateOut) : Bool :=
 attribute [secmemchk] pmChk
 
 theorem pmNew_checks (cfg : Cfg) (id len : Nat) : ∀ fl,
-    pmChk cfg.wipeOnNewProtectFail (pmNew cfg id len fl) = true := by
+    pmChk cfg.wipeOnNewProtectFail (pmNew cfg id len fl).norest = true := by
   obtain ⟨c1, c2, c3, c4, c5⟩ := cfg
   unfold pmNew pmNewSecret
   by_cases hl : len < 1 <;> cases c1 <;> cases c2 <;> simp only [hl, if_false, if_true] <;>
   oracle_walk
+
+/-- C10's share: `New` wipes its argument on every path iff the early-failure wipe is there. -/
+theorem pmNew_srcWiped (cfg : Cfg) (id len : Nat) (h : cfg.wipeArgOnNewFail = true) : ∀ fl,
+    (pmNew cfg id len fl).norest.srcWiped = true := by
+  obtain ⟨c1, c2, c3, c4, c5⟩ := cfg
+  simp only at h; subst h
+  unfold pmNew pmNewSecret
+  by_cases hl : len < 1 <;> cases c2 <;> simp only [hl, if_false, if_true] <;>
+  oracle_walk
+
+theorem pmRand_checks (cfg : Cfg) (id len : Nat) : ∀ fl,
+    pmChk (cfg.wipeOnRandFail && cfg.wipeOnRandProtectFail) (pmRand cfg id len fl).norest = true := by
+  obtain ⟨c1, c2, c3, c4, c5⟩ := cfg
+  unfold pmRand pmNewSecret
+  by_cases hl : len < 1 <;> cases c3 <;> cases c4 <;> simp only [hl, if_false, if_true] <;>
+  oracle_walk
+
+/-- everything checked of a memguard creation (a library failure is a panic, so no `errorNotPanicB`). -/
+def mgChk (wiped : Bool) (o : CreateOut) : Bool :=
+  createSoundB o && (!wiped || (leavesNoSecretB o && wipeOkB o.evs))
+
+attribute [secmemchk] mgChk
+
+theorem mgNew_checks (cfg : Cfg) (id len : Nat) : ∀ fl,
+    mgChk cfg.mgWipeOnProtectFail (mgNew cfg id len fl).norest = true := by
+  obtain ⟨c1, c2, c3, c4, c5⟩ := cfg
+  unfold mgNew mgNewBuffer mgFromBuffer
+  by_cases hl : len < 1 <;> cases c5 <;> simp only [hl, if_false, if_true] <;>
+  oracle_walk
+
+theorem mgRand_checks (cfg : Cfg) (id len : Nat) : ∀ fl,
+    mgChk cfg.mgWipeOnProtectFail (mgRand cfg id len fl).norest = true := by
+  obtain ⟨c1, c2, c3, c4, c5⟩ := cfg
+  unfold mgRand mgNewBuffer mgFromBuffer
+  by_cases hl : len < 1 <;> cases c5 <;> simp only [hl, if_false, if_true] <;>
+  oracle_walk
+
+/-! ### access / release / close: exact case tables (for every fault list) -/
+
+def protCall (p : Prot) (ok : Bool) (before : Content) : Ev :=
+  .call { prim := .protect p, ok := ok, lib := false, before := before }
+
+/-- `access()`: refused (closing/closed) | Protect(RO) failed: nothing changed | first reader:
+page read-only, counter 1 | further reader: counter + 1, no primitive. -/
+def AccessSpec (pf : Proto) (s : Sec) (o : StepOut) : Prop :=
+  (o.res = .closedErr ∧ o.sec = s ∧ o.evs = [] ∧ pf.accessChecksClosing = true ∧ (s.closing = true ∨ s.closed = true)) ∨
+  ((pf.accessChecksClosing = true → s.closing = false ∧ s.closed = false) ∧
+   ((o.res = .err ∧ o.sec = s ∧ s.counter = 0 ∧ o.evs = [protCall .ro false s.page.content]) ∨
+    (o.res = .ok ∧ s.counter = 0 ∧ o.sec = { s with counter := 1, page := { s.page with prot := .ro } } ∧
+      o.evs = [protCall .ro true s.page.content]) ∨
+    (o.res = .ok ∧ s.counter ≠ 0 ∧ o.sec = { s with counter := s.counter + 1 } ∧ o.evs = [])))
+
+attribute [secmemchk] AccessSpec protCall
+
+theorem access_spec (pf : Proto) (s : Sec) : ∀ fl, AccessSpec pf s (access pf s fl).norest := by
+  obtain ⟨impl, id, len, born, pg, closing, closed, counter⟩ := s
+  obtain ⟨a, b, c⟩ := pf
+  unfold access
+  cases a <;> cases closing <;> cases closed <;> rcases counter with _ | n <;> simp <;> oracle_walk
+
+/-- `release()`: the counter is decremented; the last reader drops the protection (a failure leaves
+the page as it was, the decrement stays). -/
+def ReleaseSpec (s : Sec) (o : StepOut) : Prop :=
+  (s.counter ≤ 1 ∧ o.res = .ok ∧ o.sec = { s with counter := 0, page := { s.page with prot := .none } } ∧
+     o.evs = [protCall .none true s.page.content]) ∨
+  (s.counter ≤ 1 ∧ o.res = .err ∧ o.sec = { s with counter := 0 } ∧ o.evs = [protCall .none false s.page.content]) ∨
+  (s.counter ≥ 2 ∧ o.res = .ok ∧ o.sec = { s with counter := s.counter - 1 } ∧ o.evs = [])
+
+attribute [secmemchk] ReleaseSpec
+
+theorem release_spec (s : Sec) : ∀ fl, ReleaseSpec s (release s fl).norest := by
+  obtain ⟨impl, id, len, born, pg, closing, closed, counter⟩ := s
+  unfold release
+  rcases counter with _ | _ | n <;> simp <;> oracle_walk
+
+def primCall (prim : Prim) (ok lib : Bool) (before : Content) : Ev :=
+  .call { prim := prim, ok := ok, lib := lib, before := before }
+
+attribute [secmemchk] primCall
+
+/-- `close()` of protectedmemory / `Destroy()` of memguard on a MAPPED page (`lib` tells which):
+Protect(RW) failed: nothing changed | Unlock failed: page read-write and ZEROED, still locked |
+Free failed: zeroed, unlocked, still mapped | done: zeroed before it was unlocked and unmapped,
+closed, InUseCounter.Dec.  The failure result is `bad` (`err` for protectedmemory, `panic` for memguard). -/
+def CloseSpec (lib : Bool) (fr : Prim) (bad : Res) (s : Sec) (o : StepOut) : Prop :=
+  let c := s.page.content
+  (o.res = bad ∧ o.sec = s ∧ o.evs = [primCall (.protect .rw) false lib c]) ∨
+  (o.res = bad ∧ o.sec = { s with page := { s.page with prot := .rw, content := .zero } } ∧
+     o.evs = [primCall (.protect .rw) true lib c, .wipe, primCall .unlock false lib .zero]) ∨
+  (o.res = bad ∧ o.sec = { s with page := { s.page with prot := .rw, content := .zero, locked := false } } ∧
+     o.evs = [primCall (.protect .rw) true lib c, .wipe, primCall .unlock true lib .zero, primCall fr false lib .zero]) ∨
+  (o.res = .ok ∧ o.sec = { s with closed := true,
+                                  page := applyPrim s.id { s.page with prot := .rw, content := .zero, locked := false } fr } ∧
+     o.evs = [primCall (.protect .rw) true lib c, .wipe, primCall .unlock true lib .zero, primCall fr true lib .zero, .inuseDec])
+
+attribute [secmemchk] CloseSpec
+
+theorem pmClose_spec (s : Sec) (hm : s.page.mapped = true) : ∀ fl, CloseSpec false .free .err s (pmClose s fl).norest := by
+  obtain ⟨impl, id, len, born, ⟨mapped, locked, dd, prot, content, guards⟩, closing, closed, counter⟩ := s
+  simp only at hm; subst hm
+  unfold pmClose
+  oracle_walk
+
+theorem mgClose_spec (s : Sec) (hm : s.page.mapped = true) : ∀ fl, CloseSpec true .freeG .panic s (mgClose s fl).norest := by
+  obtain ⟨impl, id, len, born, ⟨mapped, locked, dd, prot, content, guards⟩, closing, closed, counter⟩ := s
+  simp only at hm; subst hm
+  unfold mgClose mgDestroy
+  oracle_walk
+
+@[simp] theorem StepOut.norest_res (o : StepOut) : o.norest.res = o.res := rfl
+@[simp] theorem StepOut.norest_sec (o : StepOut) : o.norest.sec = o.sec := rfl
+@[simp] theorem StepOut.norest_evs (o : StepOut) : o.norest.evs = o.evs := rfl
+@[simp] theorem CreateOut.norest_res (o : CreateOut) : o.norest.res = o.res := rfl
+@[simp] theorem CreateOut.norest_sec (o : CreateOut) : o.norest.sec = o.sec := rfl
+@[simp] theorem CreateOut.norest_evs (o : CreateOut) : o.norest.evs = o.evs := rfl
+@[simp] theorem CreateOut.norest_page (o : CreateOut) : o.norest.page = o.page := rfl
+@[simp] theorem CreateOut.norest_srcWiped (o : CreateOut) : o.norest.srcWiped = o.srcWiped := rfl
+@[simp] theorem CreateOut.norest_crashed (o : CreateOut) : o.norest.crashed = o.crashed := rfl
+
+/-- the checkers do not look at the unconsumed oracle. -/
+theorem pmChk_norest (w : Bool) (o : CreateOut) : pmChk w o.norest = pmChk w o := rfl
+theorem mgChk_norest (w : Bool) (o : CreateOut) : mgChk w o.norest = mgChk w o := rfl
 
 end AsherahVerif.SecMem
